@@ -317,6 +317,11 @@ def main(argv=None):
         else:
             fresh.append(v)
 
+    if os.environ.get("VERIF_DUMP_VIOL"):
+        with open(os.environ["VERIF_DUMP_VIOL"], "w") as f:
+            for k in sorted(viols):
+                f.write(jdump({"clause": viols[k]["clause"], "key": viols[k]["key"], "known": match_known(known, viols[k]) is not None}) + "\n")
+
     for fid, (e, cnt) in sorted(known_hit.items()):
         print(f"KNOWN-FINDING: property={pid} {e['id']}: {e['text']} [{cnt} case(s) this run]")
 
